@@ -254,7 +254,7 @@ def check_c05(ctx):
                         os.remove(g)
     return rep.finish(
         'model_checking',
-        '(a) PtrCases.tla: every member name of length <= %d over {x / ~ 0 1 %% # ? space {}; TLC checks that RFC 6901 decoding '
+        '(a) PtrCases.tla: every member name of length <= %d over {x / ~ 0 1 %% # ? space {} plus the PctWords (a literal "%%" followed by two hex digits, with the twins a second percent-decoding would yield); TLC checks that RFC 6901 decoding '
         'inverts encoding (and that the naive replacement order does not) and exports the fragment text; every name is used in '
         'definitions, nested properties, parameters, responses and paths of the root and of a sibling document and resolved '
         'through Resolve{Ref,Parameter,Response,PathItem}WithBase with the root typed / generic / by location. '
